@@ -56,6 +56,21 @@ class SArr(_np.ndarray):
             raise ValueError('The truth value of an array with more than one element is ambiguous.')
         return bool(self.reshape(-1)[0])
 
+    # elementwise comparisons keep symbolic booleans as objects (numpy would force each to bool = one decision per element);
+    # all-concrete results are returned as ordinary boolean arrays so that masks keep working
+    def _cmp(self, other, uf):
+        r = uf(_np.asarray(self), _np.asarray(other) if isinstance(other, _np.ndarray) else other, dtype=object)
+        if isinstance(r, _np.ndarray):
+            if not any(isinstance(v, SymBool) for v in r.reshape(-1)):
+                return r.astype(bool)
+            return r
+        return r
+
+    def __lt__(self, o): return self._cmp(o, _np.less)
+    def __le__(self, o): return self._cmp(o, _np.less_equal)
+    def __gt__(self, o): return self._cmp(o, _np.greater)
+    def __ge__(self, o): return self._cmp(o, _np.greater_equal)
+
     @property
     def dtype(self):
         return _FakeDtype(self._vt_dtype)
